@@ -205,6 +205,8 @@ def main(tier, seed, only=None):
                    bounds="all setters with an assert-not-set guard (enumerated concretely, not symbolic)", symbolic="nothing (finite enumeration)", assumptions=[], stubs=[], outside=[]),
               dict(name="real_species_and_readme", fn="worker_species", cases=[dict()], replay=replay_enum, functions=["set_depending_on_option", "animal_populations.main override block"],
                    bounds="the 21 head-count columns of FAOSTAT_head_and_slaughter.csv (enumerated concretely)", symbolic="nothing (finite enumeration)", assumptions=[], stubs=[], outside=[])]
+    from harness import history as H
+    groups.append(dict(H.GROUP, cases=H.cases(thorough, seed)))
     vlib.run_groups(rep, MOD, groups, seed, only)
     return rep.finish()
 
